@@ -51,21 +51,21 @@ func verifBetaDecomp() (uint64, int) {
 	return uint64(b), e
 }
 func verifBetaMant() uint64 { m, _ := verifBetaDecomp(); return m }
-func verifBetaExp() int      { _, e := verifBetaDecomp(); return e }
+func verifBetaExp() int     { _, e := verifBetaDecomp(); return e }
 
 // VerifState is every field of cubicSender (+ hybrid slow start + pacer) that the model carries.
 type VerifState struct {
-	Cwnd, Ssthresh                               int64
-	LargestSent, LargestAcked, LargestAtCutback  int64
-	LastCutbackExitedSS                          bool
-	NumAcked                                     uint64
-	Mds, InitCwnd, InitMaxCwnd                   int64
-	Reno                                         bool
-	HsEnd, HsLastSent                            int64
-	HsStarted, HsFound                           bool
-	HsCurMinRTT                                  int64
-	HsCount                                      uint32
-	PBudget, PMds, PLast                         int64
+	Cwnd, Ssthresh                              int64
+	LargestSent, LargestAcked, LargestAtCutback int64
+	LastCutbackExitedSS                         bool
+	NumAcked                                    uint64
+	Mds, InitCwnd, InitMaxCwnd                  int64
+	Reno                                        bool
+	HsEnd, HsLastSent                           int64
+	HsStarted, HsFound                          bool
+	HsCurMinRTT                                 int64
+	HsCount                                     uint32
+	PBudget, PMds, PLast                        int64
 }
 
 type VerifSender struct {
@@ -123,12 +123,16 @@ func (v *VerifSender) InRecovery() bool               { return v.C.InRecovery() 
 func (v *VerifSender) InSlowStart() bool              { return v.C.InSlowStart() }
 func (v *VerifSender) Cwnd() int64                    { return int64(v.C.GetCongestionWindow()) }
 func (v *VerifSender) BandwidthEstimate() uint64      { return uint64(v.C.BandwidthEstimate()) }
-func (v *VerifSender) PacerBudget(now int64) int64    { return int64(v.C.pacer.Budget(monotime.Time(now))) }
-func (v *VerifSender) PacerMaxBurst() int64           { return int64(v.C.pacer.maxBurstSize()) }
+func (v *VerifSender) PacerBudget(now int64) int64 {
+	return int64(v.C.pacer.Budget(monotime.Time(now)))
+}
+func (v *VerifSender) PacerMaxBurst() int64 { return int64(v.C.pacer.maxBurstSize()) }
 
 // IsCwndLimited exposes the unexported predicate (used only for the DIST statistics, the
 // monitor recomputes the documented condition itself).
-func (v *VerifSender) IsCwndLimited(prior int64) bool { return v.C.isCwndLimited(protocol.ByteCount(prior)) }
+func (v *VerifSender) IsCwndLimited(prior int64) bool {
+	return v.C.isCwndLimited(protocol.ByteCount(prior))
+}
 
 // Cubic-mode oracles: the value the Cubic window functions WOULD return for the next call,
 // computed on a copy of the Cubic state so the real object is not disturbed.
@@ -153,10 +157,12 @@ func VerifNewPacer(bw uint64) *VerifPacer {
 	vp.P = newPacer(func() Bandwidth { return Bandwidth(vp.Bw) })
 	return vp
 }
-func (vp *VerifPacer) SentPacket(t, size int64) { vp.P.SentPacket(monotime.Time(t), protocol.ByteCount(size)) }
-func (vp *VerifPacer) Budget(t int64) int64     { return int64(vp.P.Budget(monotime.Time(t))) }
-func (vp *VerifPacer) MaxBurst() int64          { return int64(vp.P.maxBurstSize()) }
-func (vp *VerifPacer) TimeUntilSend() int64     { return int64(vp.P.TimeUntilSend()) }
+func (vp *VerifPacer) SentPacket(t, size int64) {
+	vp.P.SentPacket(monotime.Time(t), protocol.ByteCount(size))
+}
+func (vp *VerifPacer) Budget(t int64) int64 { return int64(vp.P.Budget(monotime.Time(t))) }
+func (vp *VerifPacer) MaxBurst() int64      { return int64(vp.P.maxBurstSize()) }
+func (vp *VerifPacer) TimeUntilSend() int64 { return int64(vp.P.TimeUntilSend()) }
 func (vp *VerifPacer) SetMaxDatagramSize(s int64) {
 	vp.P.SetMaxDatagramSize(protocol.ByteCount(s))
 }
